@@ -38,6 +38,16 @@ def produce2(case_id):
     return _produce("produce2", case_id)
 
 
+@m.memento_function(version="x1")
+def calls_c(case_id):
+    """A function of the default cluster whose body calls a function of cluster c (C19)."""
+    REC.hit("calls_c", case_id)
+    try:
+        return ["ok", cproduce(case_id)]
+    except RuntimeError as e:
+        return ["refused", str(e)[:40]]
+
+
 @m.memento_function
 def autov(case_id):
     """Automatic version. Its helper is defined further down: the version computed when this function is registered
